@@ -25,8 +25,8 @@ Ltac ev_lit :=
 
 (* character-class facts are linear arithmetic over booleans *)
 Ltac chr :=
-  unfold is_sp, is_white, is_digit, is_num_char, non_commodity, is_word_char, is_payee_char,
-         is_tag_char, is_ascii_ws in *; lia.
+  unfold is_num_char, non_commodity, is_tag_char, is_word_char, is_payee_char, is_white, is_sp,
+         is_ascii_ws, is_digit in *; lia.
 
 (* ---------------- forallb / has_char ---------------- *)
 Lemma forallb_imp : forall (f g : N -> bool) l,
